@@ -72,15 +72,20 @@ def cmp_dir(full, single, p):
 
 
 def check_entry(e, D, P, seed, out):
-    case = {'kind': 'entry', 'name': e.name, 'D': D, 'P': P, 'seed': seed}
-    args = CAT.make_args(e, D, P, seed)
+    for variant in CAT.variants_for(e, D):
+        check_entry_variant(e, D, P, seed, out, variant)
+
+
+def check_entry_variant(e, D, P, seed, out, variant):
+    case = {'kind': 'entry', 'name': e.name, 'D': D, 'P': P, 'seed': seed, 'variant': variant}
+    args = CAT.make_args(e, D, P, seed, variant)
     out['evals'] += 1
     try:
         res = CAT.outputs(e.fn(*args))
     except Exception as ex:
         out['counters']['raises (reported by C10)'] = out['counters'].get('raises (reported by C10)', 0) + 1
         return
-    out['keys'].append('%s|%d|%d' % (e.name, D, P))
+    out['keys'].append('%s|%d|%d|%s' % (e.name, D, P, variant))
     for p in range(P):
         sargs = [UTPM(a.data[:, p:p + 1].copy()) if isinstance(a, UTPM) else a for a in args]
         try:
@@ -94,7 +99,7 @@ def check_entry(e, D, P, seed, out):
             why, w = cmp_dir(o.data, so.data, p)
             out['maxima']['scaled_difference'] = max(out['maxima'].get('scaled_difference', 0.0), w)
             if why:
-                out['fails'].append({'sig': 'C11|%s|forward|direction %s' % (e.name, '0' if p == 0 else '>0'), 'case': case,
+                out['fails'].append({'sig': 'C11|%s%s|forward|direction %s' % (e.name, '' if variant == 'dense' else '{%s}' % variant, '0' if p == 0 else '>0'), 'case': case,
                                      'detail': {'output': k, 'direction': p, 'why': why}})
                 return
 
@@ -264,6 +269,40 @@ def run_mixed(u, out):
     out['samples'] = [{'mixed_structure_cases': [c[0] for c in mixed_cases(u['seed'])][:4]}]
 
 
+def check_jacobian_driver(prog, depth, D, P, seed, out):
+    """cg.jacobian(UTPM curve with P directions): the Taylor-Jacobian of direction p must equal the one of direction p alone"""
+    if PR.in_domain(prog, [PR.POINTS[p] for p in range(P)] + [PR.POINTS[3]]) is not None:
+        return
+    xdata = PR.curve(seed, D, P)
+    ps = PR.prog_str(prog)
+    case = {'kind': 'jacobian', 'prog': prog, 'depth': depth, 'D': D, 'P': P, 'seed': seed}
+    Function.cgraph = None
+    try:
+        cg, x, y = PR.record(prog, np.array(PR.POINTS[3]))
+        if not hasattr(y, 'x') or np.ndim(y.x) != 1:
+            return
+        J = cg.jacobian(UTPM(xdata.copy()))
+    except Exception:
+        Function.cgraph = None
+        return
+    out['evals'] += 1
+    out['keys'].append('%s|%d|%d|jacobian' % (ps, D, P))
+    for p in range(P):
+        try:
+            Function.cgraph = None
+            cg1, x1, y1 = PR.record(prog, np.array(PR.POINTS[3]))
+            J1 = cg1.jacobian(UTPM(xdata[:, p:p + 1].copy()))
+        except Exception:
+            Function.cgraph = None
+            return
+        why, w = cmp_dir(J.data, J1.data, p)
+        if why:
+            out['fails'].append({'sig': 'C11|prog=%s|jacobian(UTPM)' % ps, 'case': case, 'detail': {'direction': p, 'why': why},
+                                 'attribs': ['instr:%s|jacobian' % i[0] for i in prog]})
+            break
+    Function.cgraph = None
+
+
 def run_unit(u):
     out = {'evals': 0, 'keys': [], 'fails': [], 'samples': [], 'counters': {}, 'maxima': {}}
     if u['kind'] == 'mixed':
@@ -280,6 +319,8 @@ def run_unit(u):
         for prog, depth in u['progs']:
             for (D, P) in curves:
                 check_program(prog, depth, D, P, u['seed'], out)
+            if depth <= 1:
+                check_jacobian_driver(prog, depth, 2, 3, u['seed'], out)
         out['samples'] = [{'program': PR.prog_str(u['progs'][0][0]), 'curves': curves, 'modes': ['forward', 'reverse']}]
     return out
 
@@ -290,7 +331,9 @@ def replay(case):
         run_mixed({'seed': case.get('seed', 0)}, out)
         out['fails'] = [f for f in out['fails'] if f['case']['name'] == case['name'] and f['case']['D'] == case['D'] and f['case'].get('mode') == case.get('mode')]
     elif case['kind'] == 'entry':
-        check_entry(CAT.BY_NAME[case['name']], case['D'], case['P'], case.get('seed', 0), out)
+        check_entry_variant(CAT.BY_NAME[case['name']], case['D'], case['P'], case.get('seed', 0), out, case.get('variant', 'dense'))
+    elif case['kind'] == 'jacobian':
+        check_jacobian_driver(case['prog'], case.get('depth', 1), case['D'], case['P'], case.get('seed', 0), out)
     else:
         check_program(case['prog'], case.get('depth', 1), case['D'], case['P'], case.get('seed', 0), out, modes=(case.get('mode', 'forward'),))
     return out['fails']
